@@ -951,7 +951,13 @@ impl Xot {
     /// If that id does not exist, returns [`None`].
     pub fn xml_id_node(&self, document_node: Node, value: &str) -> Option<Node> {
         let value_nodes = self.id_nodes_map.get(&document_node.get())?;
-        value_nodes.get(value).map(|node_id| Node::new(*node_id))
+        let node = value_nodes.get(value).map(|node_id| Node::new(*node_id))?;
+        // the index is filled at parse time only: do not hand out a node that
+        // has been removed or moved out of this document since
+        if self.is_removed(node) || self.root(node) != document_node {
+            return None;
+        }
+        Some(node)
     }
 }
 
